@@ -454,11 +454,7 @@ fn mutate(t: &mut Tape, p: &mut Parts, strict: bool, excluded: &mut Vec<String>)
                 if p.len == 0 || p.buffers.is_empty() || p.buffers[0].len() < p.offset + p.len {
                     return None;
                 }
-                // known finding F3a: union type ids / dense offsets are not validated (TODO in ArrayData::validate_values)
-                if !strict {
-                    excluded.push("F3a-union-ids-offsets-unchecked".into());
-                    return None;
-                }
+                // (fixed finding F3a: union type ids / dense offsets are validated now; the mutation is always generated)
                 let s = t.below(p.len);
                 let declared: Vec<i8> = uf.iter().map(|x| x.0).collect();
                 if mode == UnionMode::Dense && t.bool() && p.buffers.len() > 1 {
